@@ -134,31 +134,4 @@ mod verif_c20_fold {
         kani::cover!(s3 > 0.5 && s3 < 1.0, "COVER:interior");
         kani::cover!(true, "COVER:reach");
     }
-
-    /// S3b is monotone: an element-wise larger sequence never has a smaller score.
-    #[kani::proof]
-    #[kani::unwind(5)]
-    fn c20_fold_monotone_2() {
-        let (a, b) = (unit(), unit());
-        let (a2, b2) = (unit(), unit());
-        kani::assume(a2 >= a && b2 >= b);
-        let s = slice_fold(&ManuallyDrop::new(vec![a, b]));
-        let t = slice_fold(&ManuallyDrop::new(vec![a2, b2]));
-        assert!(t >= s, "OBL:C20.fold.monotone");
-        kani::cover!(a2 > a && b2 > b && t > s, "COVER:strict_rise");
-        kani::cover!(true, "COVER:reach");
-    }
-
-    #[kani::proof]
-    #[kani::unwind(5)]
-    fn c20_fold_monotone_3() {
-        let (a, b, c) = (unit(), unit(), unit());
-        let (a2, b2, c2) = (unit(), unit(), unit());
-        kani::assume(a2 >= a && b2 >= b && c2 >= c);
-        let s = slice_fold(&ManuallyDrop::new(vec![a, b, c]));
-        let t = slice_fold(&ManuallyDrop::new(vec![a2, b2, c2]));
-        assert!(t >= s, "OBL:C20.fold.monotone");
-        kani::cover!(a2 > a && t > s, "COVER:strict_rise");
-        kani::cover!(true, "COVER:reach");
-    }
 }
